@@ -48,6 +48,13 @@ class StubWSClient(protocol.Protocol):
             raise Disconnected("Attempt to send on a closed protocol")
         self.transport.write(b"M" + payload)
 
+    def sendClose(self, code=None, reason=None):
+        # autobahn: start the closing handshake (state CLOSING: nothing more
+        # can be sent); the server answers with its own Close and drops TCP
+        if not self.closing:
+            self.closing = True
+            self.transport.loseConnection()
+
     def connectionLost(self, reason=None):
         self._RC.ws_close(True, None, reason)
 
